@@ -224,7 +224,7 @@ def PROOFS():
                                             K + "Treatment.code_without_intercept"]),
             ("vf.contracts.utils_c", utils_c.FUNCTIONS),
             ("vf.contracts.terms_c", ["formulae.terms.terms.GroupSpecificTerm.eval_new_data"]),
-            ("vf.contracts.variable_c", ["formulae.terms.variable.Variable.labels", "formulae.terms.call.Call.labels"])]
+            ("vf.contracts.variable_c", ["formulae.terms.variable.Variable.labels", "formulae.terms.call.Call.labels"] + ["formulae.terms.variable.Variable.eval_categoric", "formulae.terms.call.Call.eval_categoric"])]
 
 
 def run(report, findings):
